@@ -17,6 +17,6 @@ CHECKS['C06'] = dict(
         thorough=[dict(tu='c06_convert', group='narrow', shards=4),
                   dict(tu='c06_convert', group='wide', bounds=dict(full32=1), shards=64),
                   dict(tu='c06_convert', group='refs', shards=1)]),
-    witnesses_required=dict(all=['pairs', 'signed_pairs', 'float_pairs', 'nondivisible_widening_pairs', 'ref_models']),
+    witnesses_required=dict(all=['ref_models_64bit_field', 'pairs', 'signed_pairs', 'float_pairs', 'nondivisible_widening_pairs', 'ref_models']),
     deadline=dict(quick=600, thorough=5400),
 )
